@@ -68,7 +68,7 @@ MUTANTS = [
     dict(name="vm_timeout_check_after_deadline_only_once", kind="break", prop="C08", units=["V-vmproto"], file=VM,
          old="            if now >= self.deadline {\n                true", new="            if now >= self.deadline && self.interval_instructions > 0 {\n                true", expect="V-vmproto::ExecutionTimeout::check_for_timeout"),
     dict(name="vm_quiet_rename_frame_base", kind="quiet", prop="C07", units=["V-vmproto"], file=VM,
-         old="        let frame_base = self.next_register();\n        self.registers.push(KValue::Null); // Instance register", new="        let base_of_frame = self.next_register();\n        let frame_base = base_of_frame;\n        self.registers.push(KValue::Null); // Instance register", expect=""),
+         old="        let frame_base = self.next_register(1)?;\n        self.registers.push(KValue::Null); // Instance register", new="        let base_of_frame = self.next_register(1)?;\n        let frame_base = base_of_frame;\n        self.registers.push(KValue::Null); // Instance register", expect=""),
     # ---- V-range
     dict(name="range_pop_back_off_by_one", kind="break", prop="C13", units=["V-range"], file=RANGE,
          old="let result = if *inclusive { *end } else { *end - 1 } as i64;", new="let result = if *inclusive { *end } else { *end } as i64;", expect="V-range::KRange::pop_back"),
@@ -397,6 +397,13 @@ MUTANTS = [
     }
 
     fn compile_comparison_op(""", expect="V-codegen::Compiler::compile_compound_assignment_op::temporaries_released"),
+    # ---- F37: the register window check of next_register
+    dict(name="vm_f37_next_register_unchecked_headroom", kind="break", prop="C06", units=["V-vmproto"], file="crates/runtime/src/vm.rs",
+         old="            Ok(register) if register <= u8::MAX - additional => Ok(register),", new="            Ok(register) => Ok(register),", expect="V-vmproto::KotoVm::next_register::overflow_of_the_window_is_an_error"),
+    dict(name="vm_f37_binary_op_asks_for_one_register_only", kind="break", prop="C06", units=["V-vmproto"], file="crates/runtime/src/vm.rs",
+         old="        let result_register = self.next_register(2)?;\n        let lhs_register = result_register + 1;", new="        let result_register = self.next_register(1)?;\n        let lhs_register = result_register + 1;", expect="V-vmproto::KotoVm::run_binary_op_inner::"),
+    dict(name="vm_f37_write_op_asks_for_two_registers_only", kind="break", prop="C06", units=["V-vmproto"], file="crates/runtime/src/vm.rs",
+         old="        let result_register = self.next_register(3)?;", new="        let result_register = self.next_register(2)?;", expect="V-vmproto::KotoVm::run_write_op_inner::"),
     # ---- V-callseq
     dict(name="callseq_piped_value_last", kind="break", prop="C02", units=["V-callseq"], file="crates/bytecode/src/compiler.rs",
          old="""        let arg_offset = if let Some(piped_arg) = piped_arg {
